@@ -478,6 +478,42 @@ def e2e_witnesses(chk):
     finally:
         ep.urlopen = orig
         p.close()
+    # (d) recorded finding graph-external-same-name: B calls m1's `total` and, as t2, m2's `total`
+    p = D.Pair(a_src="module m1\n  !! m1 of A\n  implicit none\ncontains\n  subroutine total(x)\n    !! total of m1\n"
+                     "    integer, intent(inout) :: x\n    x = x + 1\n  end subroutine total\nend module m1\n\n"
+                     "module m2\n  !! m2 of A\n  implicit none\ncontains\n  subroutine total(x)\n    !! total of m2\n"
+                     "    integer, intent(inout) :: x\n    x = x + 2\n  end subroutine total\nend module m2\n")
+    try:
+        err, _ = p.build_A()
+        err2, log = (None, "") if err else p.build_B(
+            "module mb\n  !! module of B\n  use m1, only: total\n  use m2, only: t2 => total\n  implicit none\n"
+            "contains\n  subroutine go(x)\n    !! calls both\n    integer, intent(inout) :: x\n    call total(x)\n"
+            "    call t2(x)\n  end subroutine go\nend module mb\n", "../A/doc", graph=True)
+        chk.count(("witness", "graph-same-name"), sample={"B": "call total (m1) and t2 => total (m2), graph: true",
+                                                           "error": err or err2})
+        if err or err2:
+            chk.violation("failing-input", {"what": "FORD failed on the graph demonstration pair",
+                                            "error": err or err2, "log": log[-1500:]}, True)
+        else:
+            page = (p.root / "B" / "doc" / "proc" / "go.html").read_text()
+            got = {h.rsplit("/", 1)[-1] for h in re.findall(r'xlink:href="([^"]*A/doc/proc/[^"]*)"', page)}
+            mpage = p.root / "B" / "doc" / "module" / "mb.html"
+            uses = {l for h, l in page_links(mpage) if "A/doc/module/" in h}
+            if uses != {"m1", "m2"}:
+                chk.violation("failing-input", {"what": "USE links of the graph demonstration pair",
+                                                "links": sorted(uses)}, True)
+            if got == {"total.html", "total~2.html"}:
+                pass                                    # repaired
+            elif len(got) == 1 and got <= {"total.html", "total~2.html"}:
+                chk.disagreements += 1
+                if not known_once(chk, "graph-external-same-name"):
+                    chk.violation("failing-input", {"what": "call graph: two procedures of A with the same own name "
+                                                            "share one node", "links": sorted(got)}, True)
+            else:
+                chk.violation("failing-input", {"what": "call graph of the demonstration pair has no right link "
+                                                        "into A", "links": sorted(got)}, True)
+    finally:
+        p.close()
 
 
 def end_to_end(chk, rng, npairs, nremote):
@@ -488,6 +524,10 @@ def end_to_end(chk, rng, npairs, nremote):
         knobs = {} if rng.random() < 0.2 else {"display": ["public", "protected"]}
         if clash:
             knobs.update({"clash": True, "nmod": rng.choice([2, 3])})
+        if k == npairs - 1:
+            # one pair of every run has a facade over modules with equal names, and graphs
+            knobs.update({"clash": True, "nmod": 3, "facade": True, "display": ["public", "protected"]})
+            graph = True
         b = BuiltA(rng, knobs)
         try:
             if b.err or b.modules_json is None:
@@ -577,6 +617,7 @@ def check_pair(chk, b, B, bdoc, base, payload, graph):
                          f"({e['kind']} {e['name']})", page, [str(l[1]) + "#" + l[2] for l in hits]))
 
     bnames = {bm["name"].lower() for bm in B["modules"]}
+    same_name_nodes = []
     for bm in B["modules"]:
         mpage = f"module/{bm['name'].lower()}.html"
         if not (bdoc / mpage).is_file():
@@ -613,6 +654,15 @@ def check_pair(chk, b, B, bdoc, base, payload, graph):
                         continue
                     hits = [l for pg in (ppage,) for l in links.get(pg, []) if c["id"] in l[3]]
                     if not hits:
+                        # recorded finding graph-external-same-name: another procedure of A with the same own
+                        # name is a node of the same graph and IS linked - ford/graphs.py keys external nodes by
+                        # name, the two collapse into one node; anything else stays a violation
+                        twins = [c2 for c2 in p["calls"] if c2["id"] != c["id"]
+                                 and c2["name"].lower() == c["name"].lower()
+                                 and any(c2["id"] in l[3] for l in links.get(ppage, []))]
+                        if twins:
+                            same_name_nodes.append((ppage, c["name"], c["id"], twins[0]["id"]))
+                            continue
                         problems.append((f"call graph: no link on {ppage} reaches {c['kind']} {c['name']} "
                                          f"(entity {c['id']})", ppage))
         for r in bm["refs"]:
@@ -623,6 +673,11 @@ def check_pair(chk, b, B, bdoc, base, payload, graph):
             elif r["qualified"]:
                 expect(mpage, r["ent"]["name"], r["ent"]["id"], f"reference {r['text']}")
     chk.traces += 1
+    if same_name_nodes:
+        chk.disagreements += 1
+        if not known_once(chk, "graph-external-same-name"):
+            problems.append(("call graph: two procedures of A with the same own name share one node",
+                             same_name_nodes[:5]))
     if problems:
         chk.disagreements += 1
         chk.violation("failing-input", dict(payload, what="end-to-end: links of B into A", problems=problems[:10]), True)
@@ -817,4 +872,5 @@ def finish(chk):
                      "attribs) are stripped before the export comparison",
                      "str(Path(base)/rel) modelled for a normalised absolute base; urljoin modelled for references "
                      "without scheme, '//' and dot segments",
-                     "markdown / Jinja templates are outside the model: covered by the end-to-end search only"])
+                     "markdown / Jinja templates and graphs are outside the model: covered by the end-to-end search "
+                     "only (known finding graph-external-same-name: external nodes of a graph are keyed by name)"])
